@@ -256,10 +256,12 @@ class SendEventResponse(StreamingResponse[ServerSentEvent]):
                     except StopAsyncIteration:
                         should_stop = True
             finally:
-                await q.put(None)
-                g = self.iterable
-                if hasattr(g, "aclose"):
-                    await g.aclose()  # type: ignore
+                try:
+                    await q.put(None)
+                finally:
+                    g = self.iterable
+                    if hasattr(g, "aclose"):
+                        await g.aclose()  # type: ignore
 
         push_future = asyncio.ensure_future(push())
 
